@@ -120,6 +120,8 @@ func (s *behaviorSubjectImpl[T]) Error(err error) {
 // Implements Observer.
 func (s *behaviorSubjectImpl[T]) ErrorWithContext(ctx context.Context, err error) {
 	s.mu.Lock()
+	defer s.unsubscribeAll() // once the lock is released: deferred calls run in reverse order
+	defer s.mu.Unlock()      // deferred: a subscriber's teardown may panic inside the terminal notification
 
 	if s.status == KindNext {
 		s.err = lo.T2(ctx, err)
@@ -128,9 +130,6 @@ func (s *behaviorSubjectImpl[T]) ErrorWithContext(ctx context.Context, err error
 	} else {
 		OnDroppedNotification(ctx, NewNotificationError[T](err))
 	}
-
-	s.mu.Unlock()
-	s.unsubscribeAll()
 }
 
 // Implements Observer.
@@ -141,6 +140,8 @@ func (s *behaviorSubjectImpl[T]) Complete() {
 // Implements Observer.
 func (s *behaviorSubjectImpl[T]) CompleteWithContext(ctx context.Context) {
 	s.mu.Lock()
+	defer s.unsubscribeAll() // once the lock is released: deferred calls run in reverse order
+	defer s.mu.Unlock()      // deferred: a subscriber's teardown may panic inside the terminal notification
 
 	if s.status == KindNext {
 		s.status = KindComplete
@@ -148,9 +149,6 @@ func (s *behaviorSubjectImpl[T]) CompleteWithContext(ctx context.Context) {
 	} else {
 		OnDroppedNotification(ctx, NewNotificationComplete[T]())
 	}
-
-	s.mu.Unlock()
-	s.unsubscribeAll()
 }
 
 func (s *behaviorSubjectImpl[T]) HasObserver() (has bool) {
